@@ -81,6 +81,9 @@ fuzz_target!(|data: &[u8]| {
         Ok(Program { pool, start: u.arbitrary()?, ops })
     };
     if let Ok(p) = build(&mut u) {
+        if std::env::var("FZ_DUMP").is_ok() {
+            eprintln!("{:?}", p);
+        }
         fuzz_check("C19", "program", &p, check_program);
     }
 });
